@@ -277,11 +277,116 @@ def rule_geometry_frames(eng, rep, rule="C13-3"):
     rep.require_count(rule + ".frame-agreement", "sites in the step routines", n, 40)
 
 
+def _expand_except(cfg, at_ast, expr, keep, depth=3):
+    """expand_locals, but names in `keep` stay as they are"""
+    import copy
+
+    class _Sub(ast.NodeTransformer):
+        def visit_Name(self, node):
+            if not isinstance(node.ctx, ast.Load) or node.id in keep or depth <= 0:
+                return node
+            try:
+                defs = cfg.defs_reaching(at_ast, node.id)
+            except Exception:
+                return node
+            if len(defs) != 1:
+                return node
+            st = cfg.ast_of(list(defs)[0])
+            if isinstance(st, ast.Assign) and len(st.targets) == 1 and isinstance(st.targets[0], ast.Name) and st.targets[0].id == node.id:
+                return _expand_except(cfg, st, st.value, keep, depth - 1)
+            return node
+    return _Sub().visit(copy.deepcopy(expr))
+
+
+def rule_geometry_step_is_the_better_candidate(eng, rep, rule="C13-7.geometry-step-is-the-better-of-minimiser-and-maximiser"):
+    """max |c + g's| over a convex region is attained at the minimiser or at the maximiser of g's -- which one depends on c and on the (asymmetric) region, so both
+    must be computed and compared: every return of trsbox_geometry / ctrsbox_geometry hands back the candidate on the larger side of a comparison of
+    |c + g.s_min| with |c + g.s_max|, where one candidate was computed for +g and the other for -g."""
+    from .common import expand_locals
+    solvers = {"trust_region.trsbox_linear", "trust_region.ctrsbox_linear"}
+    nret = 0
+    for fid in ("trust_region.trsbox_geometry", "trust_region.ctrsbox_geometry"):
+        fi = eng.fn(fid)
+        cfg = eng.cfg(fi)
+        cpar, gpar = fi.posparams[1], fi.posparams[2]
+        sign = {}       # candidate name -> {+1, -1} over all its definitions
+        for n, d in cfg.g.nodes(data=True):
+            st = d["ast"]
+            if d["kind"] == "stmt" and isinstance(st, ast.Assign) and len(st.targets) == 1 and isinstance(st.targets[0], ast.Name) and isinstance(st.value, ast.Call):
+                ci = eng.res.calls.get(id(st.value))
+                if ci and any(t.fid in solvers for t in ci.targets):
+                    sg = None
+                    for a in list(st.value.args) + [k.value for k in st.value.keywords]:
+                        a2 = expand_locals(cfg, st, a)
+                        if isinstance(a2, ast.Name) and a2.id == gpar:
+                            sg = +1
+                        elif isinstance(a2, ast.UnaryOp) and isinstance(a2.op, ast.USub) and isinstance(a2.operand, ast.Name) and a2.operand.id == gpar:
+                            sg = -1
+                    sign.setdefault(st.targets[0].id, set()).add(sg)
+
+        def candidate_of(e, at):
+            """name of the candidate S if e == |c + g.S| (temporaries looked through), else None"""
+            e = _expand_except(cfg, at, e, set(sign) | {cpar, gpar})
+            if not (isinstance(e, ast.Call) and ekey(e.func).split(".")[-1] in ("abs", "fabs", "absolute") and len(e.args) == 1):
+                return None
+            b = e.args[0]
+            if not (isinstance(b, ast.BinOp) and isinstance(b.op, ast.Add)):
+                return None
+            for x, y in ((b.left, b.right), (b.right, b.left)):
+                if isinstance(x, ast.Name) and x.id == cpar and isinstance(y, ast.Call) and ekey(y.func).split(".")[-1] == "dot" and len(y.args) == 2:
+                    for u, v in ((y.args[0], y.args[1]), (y.args[1], y.args[0])):
+                        if isinstance(u, ast.Name) and u.id == gpar and isinstance(v, ast.Name):
+                            return v.id
+            return None
+
+        for n, d in cfg.g.nodes(data=True):
+            st = d["ast"]
+            if d["kind"] != "stmt" or not isinstance(st, ast.Return) or st.value is None:
+                continue
+            nret += 1
+            site = eng.where(fi, st)
+            v = st.value
+            names = [x.id for x in ast.walk(v) if isinstance(x, ast.Name) and x.id in sign]
+            if len(names) != 1:
+                rep.unknown(rule, site, "`%s`: cannot tell which candidate is returned" % short(st, 50))
+                continue
+            S = names[0]
+            if sign[S] - {+1, -1} or len(sign[S]) != 1:
+                rep.unknown(rule, site, "candidate `%s` is not computed for exactly one of +%s / -%s" % (S, gpar, gpar))
+                continue
+            verdict = None
+            for (gn, a) in guards_of(cfg, n):
+                if a.op not in ("le", "lt") or a.rhs is None:
+                    continue
+                at = cfg.ast_of(gn)
+                small, large = candidate_of(a.lhs, at), candidate_of(a.rhs, at)
+                if small is None or large is None or small == large or small not in sign or large not in sign:
+                    continue
+                if sign[small] == sign[large]:
+                    rep.bad(rule, site, "%s|candidates-same-direction" % fid, "`%s` and `%s` are both computed for the same sign of %s: the other extreme of g's is never examined" % (small, large, gpar))
+                    verdict = False
+                    break
+                if S == large:
+                    verdict = True
+                elif S == small:
+                    verdict = False
+                    rep.bad(rule, site, "%s|returns-the-smaller-candidate|%s" % (fid, S), "`%s` is returned where |%s + %s.%s| %s |%s + %s.%s|: the candidate with the smaller |L| is chosen"
+                            % (S, cpar, gpar, small, "<=" if a.op == "le" else "<", cpar, gpar, large))
+                break
+            if verdict is None:
+                rep.bad(rule, site, "%s|returned-without-comparison|%s" % (fid, S),
+                        "`%s` is handed back without being compared with the candidate for the opposite sign of %s: max |%s + %s.s| can be attained at either extreme (the region is not symmetric about the centre)"
+                        % (short(st, 40), gpar, cpar, gpar))
+            elif verdict:
+                rep.ok(rule, site, "`%s` (computed for %s%s) is returned on the larger side of the comparison of |%s + %s.s| at the two candidates" % (S, "+" if sign[S] == {1} else "-", gpar, cpar, gpar))
+    rep.require_count(rule, "returns of the geometry-step routines", nret, 4)
+
+
 def run(eng, rep):
     rep.explain("C13 (structural clauses): in ctrsbox_sfista/pgd/linear the list handed to dykstra is list(projections) plus, appended last, pball(., centre, radius) "
                 "of the routine's own centre and radius parameters; in Controller.trust_region_step every regularised step passes `pred_reduction < 0 => d = 0` and "
                 "pred_reduction is computed from the returned (gopt, H, d); frame agreement (T5) at all arithmetic/clamp/dykstra sites of the step routines; totality.")
-    rep.explain("Also decided: trsbox_linear's face handling is reflection-equivariant (T14, C13-5); the geometry point is centre + an output of trsbox_linear over the box relative to the centre (C13-6); the projector list may be built by a helper (parameters mapped back through the call binding).")
+    rep.explain("Also decided: trsbox_linear's face handling is reflection-equivariant (T14, C13-5); the geometry point is centre + an output of trsbox_linear over the box relative to the centre (C13-6); the projector list may be built by a helper (parameters mapped back through the call binding); each geometry routine returns the candidate with the larger |c + g.s| of the minimiser and the maximiser (C13-7).")
     rep.not_decided += ["box to 1e-12, global maximum of |c + g's| to 1e-6, ||d|| <= Delta(1+1e-8) (numerical)"]
     rep.note("C13", "dfols/trust_region.py:ctrsbox_geometry", "passes literal d_max_iters=100, d_tol=1e-10 instead of its own parameters (observation, not part of the statement)")
     rule_ball_last(eng, rep)
@@ -291,3 +396,4 @@ def run(eng, rep):
     from .mirrorrule import rule_mirror
     rule_mirror(eng, rep, 'C13-5.lower-and-upper-face-handling-are-reflections', ['trust_region.trsbox_linear'])
     rule_geometry_point_from_box_solver(eng, rep)
+    rule_geometry_step_is_the_better_candidate(eng, rep)
